@@ -338,7 +338,14 @@ impl Engine for C17 {
                     let delta: i64 = *w.pick(&[-1i64, 0, 1, 5]);
                     let n = (l as i64 + delta).max(1) as usize;
                     let (cfg, prefix) = limit_cfg(&mut w, "var", l, via_config);
-                    let kind = *w.pick(&["literal", "concat", "copy", "in-group", "fwd"]);
+                    let kind = *w.pick(&[
+                        "literal", "concat", "copy", "in-group", "fwd", "copy-of-g-attr", "copy-of-reuse-attr", "copy-of-for-var", "braced-copy",
+                        "reuse-attr",
+                    ]);
+                    // templates are evaluated once at definition time with their parameters
+                    // still unexpanded ("$label"): keep the limit above such placeholders
+                    let (l, n) = if kind.contains("reuse") && l < 16 { (l + 16, n + 16) } else { (l, n) };
+                    let (cfg, prefix) = limit_cfg(&mut w, "var", l, via_config);
                     let val: String = (0..n).map(|i| (b'a' + (i % 26) as u8) as char).collect();
                     let body = match kind {
                         "literal" => format!("<var v=\"{val}\"/><text xy=\"0 0\" text=\"$v\"/>"),
@@ -348,9 +355,17 @@ impl Engine for C17 {
                         }
                         "copy" => format!("<var w=\"{val}\"/><var v=\"$w\"/><text xy=\"0 0\" text=\"$v\"/>"),
                         "in-group" => format!("<g><var v=\"{val}\"/><text xy=\"0 0\" text=\"$v\"/></g>"),
-                        _ => format!(
+                        "fwd" => format!(
                             "<g><rect xy=\"#last|h\" wh=\"1\"/><var v=\"{val}\"/><text xy=\"0 0\" text=\"$v\"/></g><rect id=\"last\" wh=\"2\"/>"
                         ),
+                        // values which did not come from a <var> copied verbatim into one
+                        "copy-of-g-attr" => format!("<g label=\"{val}\"><var v=\"$label\"/><text xy=\"0 0\" text=\"$v\"/></g>"),
+                        "copy-of-reuse-attr" => format!(
+                            "<specs><g id=\"tv\"><var v=\"$label\"/><text xy=\"0 0\" text=\"$v\"/></g></specs><reuse href=\"#tv\" label=\"{val}\"/>"
+                        ),
+                        "copy-of-for-var" => format!("<for data=\"'{val}'\" var=\"x\"><var v=\"${{x}}\"/><text xy=\"0 0\" text=\"$v\"/></for>"),
+                        "braced-copy" => format!("<g label=\"{val}\"><var v=\"${{label}}\"/><text xy=\"0 0\" text=\"$v\"/></g>"),
+                        _ => format!("<specs><g id=\"tv\"><text xy=\"0 0\" text=\"$label\"/></g></specs><reuse href=\"#tv\" label=\"{val}\"/>"),
                     };
                     // "copy"/"concat": the intermediate variables are within the limit only if
                     // they are themselves short enough
